@@ -4,8 +4,8 @@
  'host': 'brush-core/src/shell/traps.rs',
  'stubs': ['tracing -> no-op stub crate', 'std::hash::RandomState::new -> fixed keys', 'std::time::SystemTime::now -> UNIX_EPOCH',
            'call_stack().is_trap_signal_active(signal) -> symbolic input (the inductive hypothesis: some enclosing invocation of this signal\'s handler may be running)',
-           'traps.get_handler(signal).cloned() -> oracle (registered: symbolic)', 'enter_trap_handler / leave_trap_handler -> counting oracles (their symmetry is discharged on the re-instantiated callstack.rs)',
-           'run_string(handler) -> oracle: sets $? to an arbitrary value, may return Err, may request exit'],
+           'traps.get_handler(signal).cloned() -> oracle (registered: symbolic)', 'the bodies of enter_trap_handler / leave_trap_handler are transplanted too (so any shell state they save or restore is the repository\'s); only call_stack.push_trap_handler / pop inside them are counting oracles (their symmetry is discharged on the re-instantiated callstack.rs)',
+           'run_string(handler) -> oracle: sets $? to an arbitrary value, may return Err, may request exit, and may itself trigger one nested trap invocation of the other signal (which runs the same transplant with its own oracle)'],
  'assumptions': ['one step of the trap protocol from an arbitrary enclosing state; nesting by induction on depth', 'signals EXIT and ERR'],
  'out_of_claim': ['brush-shell entry.rs and interactive_shell.rs (binary-side front-ends)', '`exit` inside handlers changing the process status', 'exec', 'signal traps and DEBUG/RETURN', 'ordering relative to output', 'the trap builtin'],
 }
@@ -15,9 +15,13 @@
  'invoke': {'file': 'brush-core/src/shell/traps.rs', 'start': r'pub\(crate\) async fn invoke_trap_handler\(', 'mode': 'fn_body', 'self_to': 'this', 'deasync': True,
             'rewrites': [[r'this\.call_stack\(\)\.is_trap_signal_active\(signal\)', r'__o.is_active(signal)', 1],
                          [r'this\.traps\.get_handler\(signal\)\.cloned\(\)', r'__o.handler(signal)', 1],
-                         [r'this\.enter_trap_handler\(signal, Some\(&handler\)\)', r'__o.enter(signal)', 1],
+                         [r'this\.enter_trap_handler\(signal, Some\(&handler\)\)', r't_enter_trap(this, signal, Some(&handler), __o)', 1],
                          [r'this\s*\.run_string\(&handler\.command, &handler\.source_info, &params\)', r'__o.run_handler(this, &params)', 1],
-                         [r'this\.leave_trap_handler\(\)', r'__o.leave()', 1]]},
+                         [r'this\.leave_trap_handler\(\)', r't_leave_trap(this, __o)', 1]]},
+ 'enter_trap': {'file': 'brush-core/src/shell/callstack.rs', 'start': r'pub\(crate\) fn enter_trap_handler\(', 'mode': 'fn_body', 'self_to': 'this',
+            'rewrites': [[r'this\.call_stack\.push_trap_handler\(signal, handler\)', r'__o.enter(signal)', 1]]},
+ 'leave_trap': {'file': 'brush-core/src/shell/callstack.rs', 'start': r'pub\(crate\) fn leave_trap_handler\(&mut self\)', 'mode': 'fn_body', 'self_to': 'this',
+            'rewrites': [[r'this\.call_stack\.pop\(\)', r'__o.leave()', 1]]},
  'on_exit': {'file': 'brush-core/src/shell/traps.rs', 'start': r'pub async fn on_exit\(&mut self\)', 'mode': 'fn_body', 'self_to': 'this', 'deasync': True,
             'rewrites': [[r'this\.traps\.handles\(TrapSignal::Exit\)', r'__o.handles_exit()', 1],
                          [r'this\.invoke_trap_handler\(TrapSignal::Exit, &this\.default_exec_params\(\)\)', r'__o.invoke(this, TrapSignal::Exit)', 1]]},
@@ -32,22 +36,36 @@ pub struct TOracle {
     pub already_active: bool, pub registered: bool, pub handler_fails: bool, pub new_status: u8, pub handler_flow_exit: bool,
     pub entered: u8, pub left: u8, pub runs: u8, pub ran_inside: bool, pub entered_signal_ok: bool, pub status_seen_by_handler: u8, pub pg_same: bool,
     pub invokes: u8, pub invoke_fails: bool,
+    pub nest: bool, pub nested_runs: u8, pub nested_status: u8, pub nested_balanced: bool, pub nested_new_status: u8, pub depth_now: u8, pub max_depth: u8,
 }
 impl TOracle {
     pub fn new() -> Self {
         TOracle { already_active: kani::any(), registered: kani::any(), handler_fails: kani::any(), new_status: kani::any(), handler_flow_exit: kani::any(),
-                  entered: 0, left: 0, runs: 0, ran_inside: false, entered_signal_ok: true, status_seen_by_handler: 0, pg_same: false, invokes: 0, invoke_fails: kani::any() }
+                  entered: 0, left: 0, runs: 0, ran_inside: false, entered_signal_ok: true, status_seen_by_handler: 0, pg_same: false, invokes: 0, invoke_fails: kani::any(),
+                  nest: false, nested_runs: 0, nested_status: 0, nested_balanced: true, nested_new_status: 0, depth_now: 0, max_depth: 0 }
     }
     fn is_active(&self, _s: TrapSignal) -> bool { self.already_active }
     fn handler(&self, _s: TrapSignal) -> Option<crate::traps::TrapHandler> { if self.registered { Some(crate::traps::TrapHandler::default()) } else { None } }
-    fn enter(&mut self, _s: TrapSignal) { self.entered += 1; }
-    fn leave(&mut self) { self.left += 1; }
+    fn enter(&mut self, _s: TrapSignal) { self.entered += 1; self.depth_now += 1; if self.depth_now > self.max_depth { self.max_depth = self.depth_now; } }
+    fn leave(&mut self) { self.left += 1; self.depth_now = self.depth_now.saturating_sub(1); }
     fn run_handler(&mut self, shell: &mut Sh, p: &ExecutionParameters) -> Result<ExecutionResult, error::Error> {
         self.runs += 1;
         self.ran_inside = self.entered == 1 && self.left == 0;
         self.status_seen_by_handler = shell.last_exit_status();
         self.pg_same = matches!(p.process_group_policy, ProcessGroupPolicy::SameProcessGroup);
         shell.set_last_exit_status(self.new_status);
+        if self.nest {
+            // a command inside this handler fails and fires the *other* signal's trap: one nested protocol step, same transplant
+            let other = if self.entered_signal_ok { TrapSignal::Err } else { TrapSignal::Exit };
+            let mut inner = TOracle::new();
+            inner.already_active = false; inner.registered = true; inner.nest = false; inner.handler_fails = false;
+            let before = shell.last_exit_status();
+            let r = t_invoke(shell, other, p, &mut inner);
+            std::mem::forget(r);
+            self.nested_runs += inner.runs;
+            self.nested_status = inner.status_seen_by_handler;
+            self.nested_balanced = inner.entered == inner.left && shell.last_exit_status() == before;
+        }
         if self.handler_fails { return Err(error::ErrorKind::NotArray.into()); }
         let mut r = ExecutionResult::new(self.new_status);
         if self.handler_flow_exit { r.next_control_flow = crate::ExecutionControlFlow::ExitShell; }
@@ -63,11 +81,17 @@ impl TOracle {
 fn t_invoke(this: &mut Sh, signal: TrapSignal, params: &ExecutionParameters, __o: &mut TOracle) -> Result<ExecutionResult, error::Error> {
 /*@LIFT invoke*/
 }
+fn t_enter_trap(this: &mut Sh, signal: crate::traps::TrapSignal, handler: Option<&crate::traps::TrapHandler>, __o: &mut TOracle) {
+/*@LIFT enter_trap*/
+}
+fn t_leave_trap(this: &mut Sh, __o: &mut TOracle) {
+/*@LIFT leave_trap*/
+}
 fn t_on_exit(this: &mut Sh, __o: &mut TOracle) -> Result<(), error::Error> {
 /*@LIFT on_exit*/
 }
 
-//@proof {'props': ['C16', 'C18'], 'tier': 'quick', 'timeout': 900, 'uses': ['invoke'], 'bounds': 'signal in {EXIT, ERR}; already-active, registered, handler outcome (status, Err, exit request), $? before - all symbolic; errtrace option symbolic; top-level shell (not in a function or subshell)', 'desc': 'one step of the trap protocol: nothing runs and nothing is pushed if the signal is already active or nothing is registered; otherwise the handler runs exactly once strictly between one enter and one leave, also when it fails; the handler sees the interrupted status in $? and $? afterwards equals $? before'}
+//@proof {'props': ['C16', 'C18'], 'tier': 'quick', 'timeout': 900, 'uses': ['invoke', 'enter_trap', 'leave_trap'], 'bounds': 'signal in {EXIT, ERR}; already-active, registered, handler outcome (status, Err, exit request), $? before - all symbolic; errtrace option symbolic; top-level shell (not in a function or subshell)', 'desc': 'one step of the trap protocol: nothing runs and nothing is pushed if the signal is already active or nothing is registered; otherwise the handler runs exactly once strictly between one enter and one leave, also when it fails; the handler sees the interrupted status in $? and $? afterwards equals $? before'}
 #[kani::proof]
 #[kani::unwind(4)]
 #[kani::stub(std::hash::RandomState::new, crate::vk_prelude::stub_random_state_new)]
@@ -113,4 +137,26 @@ fn vk_c16_on_exit() {
     assert!(o.invokes == if o.registered { 1 } else { 0 }, "C16.on_exit.invokes_exit_handler_exactly_once_iff_registered");
     assert!(r.is_err() == (o.registered && o.invoke_fails), "C16.on_exit.result");
     std::mem::forget(r); std::mem::forget(shell);
+}
+
+//@proof {'props': ['C16'], 'tier': 'quick', 'timeout': 1200, 'uses': ['invoke', 'enter_trap', 'leave_trap'], 'bounds': 'outer signal EXIT; a command inside the EXIT handler fires the ERR trap (one nested step); statuses symbolic', 'desc': 'nested traps: an ERR handler running inside the EXIT handler sees the failing status, is itself balanced and restores $? for the rest of the EXIT handler; when the EXIT handler finishes, $? is again the terminating status the shell had before the EXIT trap (so the process exits with it)'}
+#[kani::proof]
+#[kani::unwind(4)]
+#[kani::stub(std::hash::RandomState::new, crate::vk_prelude::stub_random_state_new)]
+#[kani::stub(std::time::SystemTime::now, crate::vk_prelude::stub_now)]
+fn vk_c16_trap_nested_status() {
+    let mut shell: Sh = crate::Shell::default();
+    let st: u8 = kani::any();
+    shell.set_last_exit_status(st);
+    let mut o = TOracle::new();
+    o.already_active = false; o.registered = true; o.nest = true; o.handler_fails = false; o.entered_signal_ok = true;
+    let p = shell.default_exec_params();
+    let r = t_invoke(&mut shell, TrapSignal::Exit, &p, &mut o);
+    kani::cover!(o.nested_runs == 1 && st == 5 && o.new_status == 1, "err_trap_inside_exit_trap_after_exit_5");
+    assert!(o.runs == 1 && o.nested_runs == 1, "C16.nested.both_handlers_run_once");
+    assert!(o.nested_status == o.new_status, "C16.nested.inner_handler_sees_the_failing_status");
+    assert!(o.nested_balanced, "C16.nested.inner_step_balanced_and_restores_status");
+    assert!(o.entered == 1 && o.left == 1, "C18.nested.outer_enter_leave_paired");
+    assert!(shell.last_exit_status() == st, "C16.nested.terminating_status_restored_after_outer_handler");
+    std::mem::forget(r); std::mem::forget(p); std::mem::forget(shell);
 }
